@@ -29,7 +29,7 @@ def gen_path(R):
     cur = start
     for _ in range(r.randint(2, 6)):
         k = r.choice(["move", "rapid", "moveabs", "rapidabs", "polyline", "arc", "circle", "helix", "spiral", "thread",
-                      "arc_radius", "spline", "ctx"])
+                      "arc_radius", "spline", "ctx", "ctxraise", "parametric"])
         if k in ("move", "rapid", "moveabs", "rapidabs"):
             t = tuple(fr(r) if r.random() < 0.7 else None for _ in range(3))
             if all(v is None for v in t):
@@ -60,6 +60,16 @@ def gen_path(R):
             t = (cur[0] + fr(r, 1, 4), cur[1] + fr(r, 1, 4))
             segs.append((k, t, Fraction(r.choice([-1, 1]) * r.randint(7, 12))))
             cur = (t[0], t[1], cur[2])
+        elif k == "parametric":
+            p0 = (cur[0] + fr(r, -2, 2), cur[1] + fr(r, -2, 2), cur[2] + fr(r, -1, 1))   # lead-in gap: f(0) != position
+            p1 = (p0[0] + fr(r, 1, 6), p0[1] + fr(r, -6, 6), p0[2] + fr(r, -2, 2))
+            segs.append((k, p1, p0))
+            cur = p1
+        elif k == "ctxraise":
+            # a mode context whose body raises (a waypoint outside the axes box), caught by the caller, who carries on
+            t = (fr(r), fr(r), fr(r))
+            segs.append(("ctxraise", t, r.choice(["abs", "rel"])))
+            cur = t
         else:
             t = (fr(r), fr(r), fr(r))
             segs.append(("ctx", t, r.choice(["abs", "rel"])))   # a move inside a mode context
@@ -69,7 +79,8 @@ def gen_path(R):
 
 def lines_for(path, relative: bool):
     start, segs, direction, res = path
-    out = ["setaxis x=%s y=%s z=%s" % tuple(show(v) for v in start), "dir " + direction, "res " + show(res)]
+    out = ["boundsaxes -1000 -1000 -1000 1000 1000 1000",
+           "setaxis x=%s y=%s z=%s" % tuple(show(v) for v in start), "dir " + direction, "res " + show(res)]
     if relative:
         out.append("dist rel")
     cur = list(start)
@@ -117,6 +128,16 @@ def lines_for(path, relative: bool):
             a = arg(t + (None,), relative)[:2]
             out.append("trace arc_radius " + " ".join(show(v) for v in a) + " " + show(extra))
             cur = [t[0], t[1], cur[2]]
+        elif k == "parametric":
+            out.append("trace parametric " + ";".join(show(v) for v in extra) + " " + ";".join(show(v) for v in t))
+            cur = list(t)
+        elif k == "ctxraise":
+            inner_rel = extra == "rel"
+            out.append("enter " + extra)
+            out.append("move x=4000")          # outside the +-1000 box configured below: raises inside the block
+            out.append("exitraise")
+            out.append("move " + pt(arg(t, relative)))
+            cur = list(t)
         elif k == "ctx":
             inner_rel = extra == "rel"
             out.append("enter " + extra)
